@@ -20,9 +20,10 @@ CFG = {'lean_modules': ['ObiVerif.Props.C09'],
                'else (-1,-1,0,0)) and d1or0_symm, for all byte sequences; lcsDP_is_lcs (textbook recurrence = optimum over all alignments, any '
                'compatibility relation); fastLCS_sound (every answer of the banded kernel, any bound, is the score and length of an actual alignment - '
                'never spurious; |a|+|b| < 30000 because the sentinel _notavail is the length 30000); fastLCS_exact_partial (exactly (LCS, shortest '
-               'alignment) when no bound is given or when the band covers the matrix). PARTIAL: exactness for a narrow band (band-containment '
-               'argument) is not proved - covered by fastLCS_sound plus the oracle of the correspondence check only; endgapfree=true (FastLCSEGFScore) '
-               'is tied by correspondence and oracle only.',
+               'alignment) when no bound is given or when the band covers the matrix). fastLCS_exact (FULL: whenever the differences of the optimum do not exceed the bound, or no bound is given, the banded kernel '
+               'returns exactly (LCS, shortest alignment) - band-containment argument), fastLCS_beyond (otherwise none or an answer itself beyond the bound), '
+               'fastLCS_exact_cover, fastLCS_decides_bound, all for |a|+|b| < 30000. PARTIAL: endgapfree=true (FastLCSEGFScore) and the refinement between '
+               'the verbatim loop layer and the structural layer are tied by correspondence and oracle only.',
  'level_note': 'Trusted: Lean kernel; the transcriptions in Model/Lcs.lean; the extractor (literals of _iupac). The theorems about D1Or0 and the LCS '
                'kernel are stated on structural layers (d1F: prefix/suffix stripping; bandLCS: banded matrix by rows with the packed words, band limits, '
                'sentinels and _setout of the code); the verbatim layers (index loops of D1Or0; two anti-diagonal rows in one buffer with the xs/xf index '
